@@ -57,6 +57,7 @@ static volatile int lock_word;
 static char fdir[512];
 static size_t fdir_len;
 
+static long raw6(long n, long a, long b, long c, long d, long e, long f);
 /* engine E3 (scheduler for real threads), defined at the end of this file */
 static void e3_parse(const char *rest);
 static void e3_main_init(void);
@@ -192,6 +193,8 @@ __attribute__((constructor)) static void simos_init(void) {
     e3_main_init();
 }
 
+static int entropy_request(void *buffer, size_t len, int cap256);
+
 int getentropy(void *buffer, size_t len) {
     if (!active) {
         /* not simulated: behave like glibc */
@@ -204,6 +207,30 @@ int getentropy(void *buffer, size_t len) {
         }
         return 0;
     }
+    return entropy_request(buffer, len, 1);
+}
+
+/* getrandom(2) with flags that ask for blocking, secure bytes is the same source as getentropy(3)
+ * (which glibc implements on top of it). Requests with GRND_NONBLOCK / GRND_INSECURE are the
+ * runtime's own (std's HashMap keys) and are passed through untouched. */
+#ifndef GRND_NONBLOCK
+#define GRND_NONBLOCK 1
+#endif
+#ifndef GRND_INSECURE
+#define GRND_INSECURE 4
+#endif
+ssize_t getrandom(void *buffer, size_t len, unsigned int flags) {
+    if (!active || (flags & (GRND_NONBLOCK | GRND_INSECURE))) {
+        long r = raw6(SYS_getrandom, (long)buffer, (long)len, (long)flags, 0, 0, 0);
+        if (r < 0) { errno = (int)-r; return -1; }
+        return r;
+    }
+    size_t n = len > 256 ? 256 : len; /* one call never serves more than 256 bytes here; callers loop */
+    if (entropy_request(buffer, n, 0) < 0) return -1;
+    return (ssize_t)n;
+}
+
+static int entropy_request(void *buffer, size_t len, int cap256) {
     char line[1200];
     char *p = line;
     static size_t e_req; /* request counter; e_i is the position in the plan */
@@ -223,7 +250,7 @@ int getentropy(void *buffer, size_t len) {
     const char *why = "plan";
     int ret = 0, err = 0, from_tail = 0;
     size_t filled = 0;
-    if (len > 256) { ret = -1; err = EIO; why = "toolong"; }
+    if (cap256 && len > 256) { ret = -1; err = EIO; why = "toolong"; }
     while (ret == 0 && filled < len) {
         struct step *st = NULL;
         if (e_i < e_n) st = &e_plan[e_i++];
@@ -630,6 +657,9 @@ long syscall(long number, ...) {
     va_start(ap, number);
     long a = va_arg(ap, long), b = va_arg(ap, long), c = va_arg(ap, long), d = va_arg(ap, long), e = va_arg(ap, long), f = va_arg(ap, long);
     va_end(ap);
+    if (number == SYS_getrandom && active && !((unsigned)c & (GRND_NONBLOCK | GRND_INSECURE))) {
+        return getrandom((void *)a, (size_t)b, (unsigned)c);
+    }
     if (number == SYS_futex && e3_controlled()) {
         long r = e3_futex((int *)a, (int)b, (int)c, (const struct timespec *)d);
         if (r != -2) return r;
